@@ -292,7 +292,8 @@ bool QXmppRegistrationManager::handleStanza(const QDomElement &stanza)
                 Q_EMIT registrationFailed(iq.error());
                 break;
             default:
-                break;  // should never occur
+                // requests are not handled here, they must get the default error reply
+                return false;
             }
 
             return true;
